@@ -6,7 +6,6 @@
 From V.model Require Import Base RelLex RelParse RelAcc RelGrammar RelGrammarAll.
 From V.model Require Import RelEdit RelEditSpec RelEditTree RelLiveAll.
 From V.proofs Require Import BaseP RelEditP RelEditTreeP.
-Set Default Timeout 60.
 
 Notation rt := relem_tree.
 
